@@ -217,8 +217,12 @@ func writeStructFieldUnmarshaller(name string, typ FieldType, w *iohelp.ErrorWri
 		writeLineWithTabs(w, "for "+iName+" := uint32(0); "+iName+" < "+lnName+"; "+iName+"++ {", depth, name)
 		ln := getLineWithTabs(settings.typeUnmarshallers[typ.Map.Key], depth+1, "&"+depthName("k", depth))
 		w.SafeWrite([]byte(strings.Replace(ln, "=", ":=", 1)))
-		name = "&(" + name[1:] + "[" + depthName("k", depth) + "])"
-		writeStructFieldUnmarshaller(name, typ.Map.Value, w, settings, depth+1)
+		// decode the value into a local and store it afterwards: an element stored under a NaN
+		// key can not be read back out of the map to fill it
+		vName := depthName("v", depth)
+		writeLineWithTabs(w, "var "+vName+" "+typ.Map.Value.goString(settings), depth+1)
+		writeStructFieldUnmarshaller("&"+vName, typ.Map.Value, w, settings, depth+1)
+		writeLineWithTabs(w, "("+name[1:]+")["+depthName("k", depth)+"] = "+vName, depth+1)
 		writeLineWithTabs(w, "}", depth)
 	} else {
 		simpleTyp := typ.Simple
